@@ -89,6 +89,294 @@ fn stale_games(rng: &mut Rng, n: usize, rep: &mut Report, sink: &mut Sink) {
     }
 }
 
+/// C08, last clause: all states of one turn tree that have the same board, side and step must
+/// compare equal and feed the same word to a hasher, whatever path led there and whatever is
+/// pending (a step that starts a push in one order completes a pull in another).
+fn transposition_groups(rng: &mut Rng, n: usize, rep: &mut Report) {
+    use std::collections::HashMap;
+    for k in 0..n {
+        let (b, side) = if k % 3 == 0 {
+            let ms = motifs(rng, 40);
+            if ms.is_empty() {
+                continue;
+            }
+            ms[rng.below(ms.len())]
+        } else {
+            random_position(rng, [4, 8, 14][k % 3], true, true)
+        };
+        let Some(g) = mk_game(&b, side, "7") else { continue };
+        let mut frontier = vec![(g.state.clone(), Vec::<String>::new())];
+        let mut groups: HashMap<(Words, usize), Vec<(arimaa_engine_step::GameState, Vec<String>)>> = HashMap::new();
+        let mut nodes = 0usize;
+        for _depth in 0..3 {
+            let mut next = vec![];
+            for (st, path) in &frontier {
+                let Some(va) = util::guard(|| st.valid_actions_no_rep()) else { continue };
+                for a in va {
+                    if !matches!(a, arimaa_engine_step::Action::Move(q, _) if q.index() < 64) || nodes > 2500 {
+                        continue;
+                    }
+                    let Some(nx) = util::guard(|| st.take_action(&a)) else { continue };
+                    if nx.is_p1_turn_to_move() != side || !nx.is_play_phase() {
+                        continue;
+                    }
+                    nodes += 1;
+                    let mut p2 = path.clone();
+                    p2.push(enc_action(&a));
+                    groups.entry((words(nx.piece_board()), nx.current_step())).or_default().push((nx.clone(), p2.clone()));
+                    next.push((nx, p2));
+                }
+            }
+            frontier = next;
+        }
+        for (_, members) in groups {
+            if members.len() < 2 {
+                continue;
+            }
+            let (first, fpath) = &members[0];
+            for (other, opath) in members.iter().skip(1) {
+                rep.eval("C08");
+                let differ_status = enc_pps(first.as_play_phase().unwrap().push_pull_state()) != enc_pps(other.as_play_phase().unwrap().push_pull_state());
+                if differ_status {
+                    rep.count("transposition-pairs-with-different-status");
+                    rep.nontriv("C08", fnv(&[9, state_key(first), state_key(other)]));
+                }
+                let eq = util::guard(|| (first == other, other == first, hash_impl_word(first) == hash_impl_word(other)));
+                if eq != Some((true, true, true)) {
+                    let mut gg = Game::parse(&g.start).unwrap();
+                    gg.actions = fpath.clone();
+                    rep.fail("C08", "same-board-side-step-but-not-equal", &gg, format!("after [{}] and after [{}]: (a == b, b == a, same hash word) = {:?}", fpath.join(" "), opath.join(" "), eq));
+                    break;
+                }
+            }
+        }
+    }
+}
+
+
+/// Exhaustive (capped) walk of the turn tree below each start position: every state reached by one
+/// to four offered actions of the same turn, and the state after the turn ended, goes through all
+/// oracles (which look at every outgoing action of the state).  Children are explored completely on
+/// the first two levels and sampled below; states in the middle of a push or right after a capture
+/// are always kept.
+fn run_turn_trees(positions: &[(B, bool)], cap: usize, rng: &mut Rng, rep: &mut Report, sink: &mut Sink, em: Emit) {
+    use arimaa_engine_step::Action;
+    rep.count_n("turn-tree-roots", positions.len() as u64);
+    for (b, side) in positions {
+        let text = diagram(b, *side, "5");
+        let mut stack: Vec<Vec<Action>> = vec![vec![]];
+        let mut nodes = 0usize;
+        while let Some(path) = stack.pop() {
+            if nodes >= cap {
+                break;
+            }
+            let Some(mut g) = Game::parse(&text) else { break };
+            let mut ok = true;
+            for a in &path {
+                if !g.step(a, rep) {
+                    ok = false;
+                    break;
+                }
+            }
+            if !ok {
+                continue;
+            }
+            nodes += 1;
+            rep.count("turn-tree-nodes");
+            g.check_state(rep);
+            g.emit_state(sink, rng, em);
+            let ended = !path.is_empty() && g.state.is_play_phase() && g.state.current_step() == 0;
+            if ended || path.len() >= 4 {
+                continue;
+            }
+            let Some(va) = util::guard(|| g.state.valid_actions_no_rep()) else { continue };
+            let before = popcount_all(&g.state);
+            let mut kids: Vec<Vec<Action>> = vec![];
+            for a in va {
+                if matches!(a, Action::Move(q, _) if q.index() >= 64) {
+                    continue;
+                }
+                let keep = if path.len() < 1 {
+                    true
+                } else {
+                    // always follow pushes in progress and captures; sample the rest
+                    let special = util::guard(|| {
+                        let n = g.state.take_action(&a);
+                        let mid_push = n.as_play_phase().map_or(false, |pp| matches!(pp.push_pull_state(), arimaa_engine_step::PushPullState::MustCompletePush(_, _)));
+                        mid_push || popcount_all(&n) < before
+                    })
+                    .unwrap_or(false);
+                    special || rng.chance(if path.len() == 1 { 350 } else { 200 }, 1000)
+                };
+                if keep {
+                    let mut p = path.clone();
+                    p.push(a);
+                    kids.push(p);
+                }
+            }
+            // depth first, in random order, so that a capped tree still reaches the fourth step
+            while !kids.is_empty() {
+                let k = rng.below(kids.len());
+                stack.push(kids.swap_remove(k));
+            }
+        }
+    }
+}
+
+fn popcount_all(s: &arimaa_engine_step::GameState) -> u32 {
+    s.piece_board().all_pieces.count_ones()
+}
+
+/// all complete turns of the side to move (rule-only lists): sequences of one to four actions that
+/// end the turn, with the state they lead to; capped
+fn all_turns(s: &arimaa_engine_step::GameState, cap: usize, rng: &mut Rng) -> Vec<(Vec<arimaa_engine_step::Action>, arimaa_engine_step::GameState)> {
+    use arimaa_engine_step::Action;
+    let side = s.is_p1_turn_to_move();
+    let mut out = vec![];
+    let mut stack: Vec<(arimaa_engine_step::GameState, Vec<Action>)> = vec![(s.clone(), vec![])];
+    let mut nodes = 0;
+    while let Some((st, path)) = stack.pop() {
+        nodes += 1;
+        if nodes > cap {
+            break;
+        }
+        let Some(mut va) = util::guard(|| st.valid_actions_no_rep()) else { continue };
+        // random order so that a capped search is not biased towards one corner of the tree
+        for i in (1..va.len()).rev() {
+            let j = rng.below(i + 1);
+            va.swap(i, j);
+        }
+        for a in va {
+            if matches!(a, Action::Move(q, _) if q.index() >= 64) {
+                continue;
+            }
+            let Some(n) = util::guard(|| st.take_action(&a)) else { continue };
+            let mut p = path.clone();
+            p.push(a);
+            if !n.is_play_phase() {
+                continue;
+            }
+            if n.is_p1_turn_to_move() != side {
+                out.push((p, n));
+            } else {
+                stack.push((n, p));
+            }
+        }
+    }
+    out
+}
+
+/// Shortest possible repetition cycles on a fresh history: from a start position X the mover plays a
+/// turn that displaces an enemy piece, the opponent answers with a turn that restores X exactly —
+/// one representative for every (number of steps, ended by pass / by the fourth step) — and both
+/// repeat.  The third occurrence then falls on a history of exactly four entries, on a pass as well
+/// as on a fourth step, with and without a push pending on the last step.  Returns (start text,
+/// three rounds of the cycle).
+fn short_cycle_scripts(rng: &mut Rng, n: usize, rep: &mut Report) -> Vec<(String, Vec<arimaa_engine_step::Action>)> {
+    use arimaa_engine_step::Action;
+    use std::collections::HashMap;
+    let mut out = vec![];
+    let starts = trap_clusters(rng, n);
+    for (k, (b, side)) in starts.into_iter().enumerate() {
+        // low move numbers too: a shortcut keyed on the move number is wrong right after a parsed start
+        let text = diagram(&b, side, ["3", "1", "2", "4", "7"][k % 5]);
+        let Some(g0) = Game::parse(&text) else { continue };
+        let x_words = words(g0.state.piece_board());
+        let a_turns = all_turns(&g0.state, 1500, rng);
+        // first turns that moved an enemy piece (only those can be undone completely)
+        let enemy_mask = |w: &Words| if side { w[1] & !w[0] } else { w[0] };
+        let mut cands: Vec<&(Vec<Action>, arimaa_engine_step::GameState)> =
+            a_turns.iter().filter(|(_, y)| enemy_mask(&words(y.piece_board())) != enemy_mask(&x_words) && words(y.piece_board())[1].count_ones() == x_words[1].count_ones()).collect();
+        for i in (1..cands.len()).rev() {
+            let j = rng.below(i + 1);
+            cands.swap(i, j);
+        }
+        for (a_path, y) in cands.into_iter().take(40) {
+            // opponent turns that restore X exactly, one per (length, ending kind)
+            let mut reps: HashMap<(usize, bool), Vec<Action>> = HashMap::new();
+            for (p, z) in all_turns(y, 2500, rng) {
+                if words(z.piece_board()) == x_words {
+                    let by_pass = matches!(p.last(), Some(Action::Pass));
+                    reps.entry((p.len(), by_pass)).or_insert(p);
+                }
+            }
+            rep.count_n("short-cycle-restoring-turn-kinds", reps.len() as u64);
+            for (_, b_path) in reps {
+                let mut script = vec![];
+                for _round in 0..3 {
+                    script.extend(a_path.iter().cloned());
+                    script.extend(b_path.iter().cloned());
+                }
+                out.push((text.clone(), script));
+            }
+        }
+    }
+    out
+}
+
+fn short_cycles(rng: &mut Rng, n: usize, rep: &mut Report, sink: &mut Sink) {
+    for (text, script) in short_cycle_scripts(rng, n, rep) {
+        let Some(mut g) = Game::parse(&text) else { continue };
+        rep.count("short-cycle-games");
+        for a in &script {
+            g.check_state(rep);
+            if rng.chance(60, 1000) {
+                sink.emit(&format!("S {}", enc_state(&g.state, g.init_hash)), "ok");
+                sink.emit("O", &observe(&g.state));
+            }
+            let offered = util::guard(|| g.state.valid_actions()).map_or(false, |v| v.contains(a));
+            if !offered {
+                rep.count("short-cycle-stopped-by-repetition-rule");
+                break;
+            }
+            if !g.step(a, rep) {
+                break;
+            }
+        }
+        g.check_state(rep);
+    }
+}
+
+/// Positions with as many offered actions as possible (hill climbing on the length of the list from
+/// full-material positions: pieces spread out, many pushable neighbours): lists beyond any "16 pieces
+/// x 4 directions" estimate.
+fn crowded_lists(rng: &mut Rng, n: usize, rep: &mut Report) -> Vec<(B, bool)> {
+    let mut out = vec![];
+    for k in 0..n {
+        let (mut b, side) = random_position(rng, 32, true, false);
+        let len_of = |b: &B| -> usize { mk_game(b, side, "9").and_then(|g| util::guard(|| g.state.valid_actions_no_rep().len())).unwrap_or(0) };
+        let mut best = len_of(&b);
+        for _ in 0..(if k % 2 == 0 { 3000 } else { 1000 }) {
+            let from: Vec<usize> = (0..64).filter(|i| b[*i].is_some()).collect();
+            let to: Vec<usize> = (0..64).filter(|i| b[*i].is_none()).collect();
+            if from.is_empty() || to.is_empty() {
+                break;
+            }
+            let (f, t) = (*rng.pick(&from), *rng.pick(&to));
+            let mut c = b;
+            c[t] = c[f];
+            c[f] = None;
+            if let Some((g, 0)) = c[t] {
+                if (g && t / 8 == 0) || (!g && t / 8 == 7) {
+                    continue;
+                }
+            }
+            if !no_hanging(&c) {
+                continue;
+            }
+            let l = len_of(&c);
+            if l >= best {
+                best = l;
+                b = c;
+            }
+        }
+        let key = format!("crowded-list-length-{}", if best >= 66 { "66+" } else if best >= 51 { "51-65" } else { "<=50" });
+        rep.count(&key);
+        out.push((b, side));
+    }
+    out
+}
+
 /// plays a fixed script (as long as each action is offered), checking every state
 fn run_scripts(rng: &mut Rng, rep: &mut Report, sink: &mut Sink, em: Emit) {
     let scripts = double_capture_scripts();
@@ -169,15 +457,23 @@ fn campaign(a: &Args, rng: &mut Rng, rep: &mut Report, sink: &mut Sink) {
     run_corpus(&a.repo, rng, 12, rep, sink, if p == "C16" || p == "C17" || p == "C18" || p == "C20" { none } else { light });
     match p {
         "C01" | "C12" => {
+            let cl = crowded_lists(rng, 6 * sc, rep);
+            run_static(&cl, rng, rep, sink, Emit { obs_pm: 1000, all_t_pm: 0 });
+            let tc = trap_clusters(rng, 30 * sc);
+            run_turn_trees(&tc, 400, rng, rep, sink, Emit { obs_pm: 60, all_t_pm: 60 });
             run_motifs(rng, 1500 * sc, 6, rep, sink, Emit { obs_pm: 400, all_t_pm: 60 });
             run_positions(rng, 150 * sc, &[6, 12, 20, 30], &[Policy::PushPull, Policy::Uniform, Policy::FourSteps, Policy::Capture], 40, true, rep, sink, light);
         }
         "C02" | "C13" => {
+            let tc = trap_clusters(rng, 30 * sc);
+            run_turn_trees(&tc, 400, rng, rep, sink, Emit { obs_pm: 30, all_t_pm: 300 });
             run_scripts(rng, rep, sink, Emit { obs_pm: 300, all_t_pm: 0 });
             run_motifs(rng, 1200 * sc, 6, rep, sink, Emit { obs_pm: 400, all_t_pm: 300 });
             run_positions(rng, 120 * sc, &[8, 16, 26], &[Policy::Capture, Policy::PushPull, Policy::Uniform], 50, true, rep, sink, Emit { obs_pm: 300, all_t_pm: 300 });
         }
         "C03" | "C14" => {
+            let tc = trap_clusters(rng, 30 * sc);
+            run_turn_trees(&tc, 400, rng, rep, sink, Emit { obs_pm: 30, all_t_pm: 0 });
             for _ in 0..6 * sc {
                 let pol = *rng.pick(&all);
                 setup_walk(rng, rep, sink, light, 40, pol);
@@ -189,6 +485,17 @@ fn campaign(a: &Args, rng: &mut Rng, rep: &mut Report, sink: &mut Sink) {
             let bx = boxed_positions(rng, 1500 * sc);
             rep.count_n("boxed-positions", bx.len() as u64);
             run_static(&bx, rng, rep, sink, Emit { obs_pm: 300, all_t_pm: 0 });
+            let mg = material_grid(rng, if sc > 1 { 1 } else { 7 });
+            rep.count_n("material-grid-positions", mg.len() as u64);
+            for (b, side) in &mg {
+                if let Some(g) = mk_game(b, *side, "4") {
+                    g.check_state(rep);
+                    if rng.chance(40, 1000) {
+                        sink.emit(&format!("S {}", enc::enc_state(&g.state, g.init_hash)), "ok");
+                        sink.emit("O", &enc::observe(&g.state));
+                    }
+                }
+            }
             // sparse endgames without keep-alive: rabbits reach goals, last rabbits get captured
             for k in 0..200 * sc {
                 let (b, side) = random_position(rng, [3, 5, 8][k % 3], true, true);
@@ -212,6 +519,7 @@ fn campaign(a: &Args, rng: &mut Rng, rep: &mut Report, sink: &mut Sink) {
             }
             run_positions(rng, 40 * sc, &[10, 24], &[Policy::RepSeek, Policy::Capture], 120, false, rep, sink, Emit { obs_pm: 100, all_t_pm: 50 });
             stale_games(rng, 150 * sc, rep, sink);
+            short_cycles(rng, 40 * sc, rep, sink);
             crafted::run(rng, 4000 * sc, rep, sink);
             if p == "C07" {
                 let bx = boxed_positions(rng, 800 * sc);
@@ -219,6 +527,9 @@ fn campaign(a: &Args, rng: &mut Rng, rep: &mut Report, sink: &mut Sink) {
             }
         }
         "C08" => {
+            transposition_groups(rng, 60 * sc, rep);
+            let tc = trap_clusters(rng, 25 * sc);
+            run_turn_trees(&tc, 400, rng, rep, sink, Emit { obs_pm: 30, all_t_pm: 0 });
             list_ops(rng, 3000 * sc, rep, sink);
             for _ in 0..5 * sc {
                 setup_walk(rng, rep, sink, light, 60, Policy::Capture);
@@ -233,6 +544,10 @@ fn campaign(a: &Args, rng: &mut Rng, rep: &mut Report, sink: &mut Sink) {
             }
         }
         "C10" | "C19" => {
+            let cl = crowded_lists(rng, 6 * sc, rep);
+            run_static(&cl, rng, rep, sink, Emit { obs_pm: 1000, all_t_pm: 0 });
+            let tc = trap_clusters(rng, 25 * sc);
+            run_turn_trees(&tc, 400, rng, rep, sink, Emit { obs_pm: 30, all_t_pm: 0 });
             run_scripts(rng, rep, sink, Emit { obs_pm: 200, all_t_pm: 0 });
             if p == "C19" {
                 unreach::run(rng, 3000 * sc, rep, sink);
@@ -270,7 +585,19 @@ fn campaign(a: &Args, rng: &mut Rng, rep: &mut Report, sink: &mut Sink) {
                 for s in [sym::Sym::Mirror, sym::Sym::Swap, sym::Sym::Both] {
                     let pol = [Policy::RepSeek, Policy::PushPull, Policy::Capture, Policy::Uniform][(k / 4) % 4];
                     let mut r2 = rng.fork();
-                    sym::lockstep(&b, side, "4", s, pol, 80, &mut r2, rep);
+                    sym::lockstep(&b, side, ["4", "1", "2", "3", "40"][k % 5], s, pol, 80, &mut r2, rep);
+                }
+            }
+            for (text, script) in short_cycle_scripts(rng, 12 * sc, rep) {
+                for s in [sym::Sym::Mirror, sym::Sym::Swap, sym::Sym::Both] {
+                    let n = script.len() + 1;
+                    sym::lockstep_from(&text, s, Policy::Uniform, n, Some(script.clone()), rng, rep);
+                }
+            }
+            for (k, (b, side)) in crowded_lists(rng, 6 * sc, rep).iter().enumerate() {
+                for s in [sym::Sym::Mirror, sym::Sym::Swap, sym::Sym::Both] {
+                    let mut r2 = rng.fork();
+                    sym::lockstep(b, *side, ["1", "2", "3", "9"][k % 4], s, Policy::PushPull, 6, &mut r2, rep);
                 }
             }
             let ms = motifs(rng, 300 * sc);
@@ -308,6 +635,11 @@ fn campaign(a: &Args, rng: &mut Rng, rep: &mut Report, sink: &mut Sink) {
             rep.c17_neighbours = true;
             run_motifs(rng, 400 * sc, 6, rep, sink, none);
             run_positions(rng, 40 * sc, &[6, 14, 26], &[Policy::Capture, Policy::PushPull, Policy::Uniform], 40, true, rep, sink, none);
+            // turn trees around traps, also with more than one camel / elephant of a colour on the board
+            let tc = trap_clusters(rng, 8 * sc);
+            run_turn_trees(&tc, 150, rng, rep, sink, none);
+            let tx = trap_clusters_with(rng, 12 * sc, [8, 3, 3, 3, 3, 3]);
+            run_turn_trees(&tx, 150, rng, rep, sink, none);
             rep.c17_neighbours = false;
         }
         _ => {
@@ -373,6 +705,11 @@ fn cmd_trace(a: Args) {
     sink.ops.flush().unwrap();
     sink.exp.flush().unwrap();
     write_report(&a, &rep, &sink, t0.elapsed().as_secs_f64());
+    if !rep.internal_errors.is_empty() {
+        // the check reports a run that exits non-zero as "harness-run no longer works", not as a violation
+        eprintln!("HARNESS-INTERNAL: {} panics in oracle code; first: {}", rep.internal_errors.len(), rep.internal_errors[0]);
+        std::process::exit(3);
+    }
 }
 
 /// replay: FILE holds `start` (INIT or diagram), `--`, actions; prints every oracle failure.
